@@ -84,6 +84,8 @@ func applyServiceExtends(ctx context.Context, name string, services map[string]a
 		processor PostProcessor
 		// the services among which the extended one is looked up; the result is recorded in `services`
 		baseServices = services
+		// the post processors that apply while the extended service is itself resolved
+		inner = post
 	)
 
 	if file != nil {
@@ -92,10 +94,12 @@ func applyServiceExtends(ctx context.Context, name string, services map[string]a
 			return nil, fmt.Errorf("services.%s.extends.file must be a string", name)
 		}
 		baseServices, processor, err = getExtendsBaseFromFile(ctx, name, ref, filename, refFilename, opts, tracker)
-		post = append(post, processor)
 		if err != nil {
 			return nil, err
 		}
+		// a `!reset` / `!override` written in a file speaks of the services of that file: inside the extended file only
+		// its own tags apply, and they do not apply to the service (of this file) that extends it
+		inner = []PostProcessor{processor}
 		filename = refFilename
 		// references written inside the extended file are references to that file
 		ctx = context.WithValue(ctx, consts.ComposeFileKey{}, refFilename)
@@ -112,7 +116,7 @@ func applyServiceExtends(ctx context.Context, name string, services map[string]a
 	}
 
 	// recursively apply `extends`
-	base, err = applyServiceExtends(ctx, ref, baseServices, opts, tracker, post...)
+	base, err = applyServiceExtends(ctx, ref, baseServices, opts, tracker, inner...)
 	if err != nil {
 		return nil, err
 	}
